@@ -51,3 +51,32 @@ package omniwitness
 //@   modifies n_ro, ro_err, n_gl, gl_err, gl_val, gl_h
 //@   // "no checkpoint yet" is reported as os.ErrNotExist exactly when the store said NotFound
 //@   ensures[C13.g,C16.a] !st_has[theStore()][logID] && !(n_ro == old(n_ro) + 1 && ro_err != nil) && !(n_gl == old(n_gl) + 1 && gl_err != nil && code(gl_err) != NotFound) ==> err == os.ErrNotExist
+
+// Each configured feeder type runs the feed function of that log type.
+//@ func (Feeder).FeedFunc
+//@   returns (r)
+//@   ensures[C12.ff] f == Serverless ==> r == serverless.FeedLog
+//@   ensures[C12.ff] f == SumDB ==> r == sumdb.FeedLog
+//@   ensures[C12.ff] f == Pixel ==> r == pixelbt.FeedLog
+//@   ensures[C12.ff] f == Rekor ==> r == rekor.FeedLog
+//@   ensures[C12.ff] f == Tiles ==> r == tiles.FeedLog
+
+// Main wires one configuration into every component.
+//@ func Main
+//@   returns (err)
+//@   modifies heap
+//@   // the witness is created over the caller's store with the table AsLogMap made from the embedded configuration
+//@   atcall[C12.main,C02.main] New: $arg1.KnownLogs == knownLogs && $arg1.Persistence == p && $arg1.Signers == operatorConfig.WitnessKeys
+//@   // ... and that table and the list handed to the other components agree: every listed log's ID is a key of the table, for the same origin
+//@   atcall[C12.main] New: len(logs) == len(logCfg.Logs) && (forall j int :: 0 <= j && j < len(logs) ==> logs[j].ID in knownLogs && knownLogs[logs[j].ID].Origin == logs[j].Origin)
+//@   // the bastion and the distributor get the list of logs built by config.NewLog from the same configuration,
+//@   // the adapter around THE witness, and the operator's verifier
+//@   atcall[C12.main] runRestDistributors: $arg5 == logs
+//@   atcall[C12.main] runRestDistributors: $arg7.w == witness
+//@   atcall[C12.main] runRestDistributors: $arg8 == operatorConfig.WitnessVerifier && $arg6 == operatorConfig.RestDistributorBaseURL
+//@   atcall[C12.main,C16.main] NewServer: $arg1 == witness
+//@   // the bastion feeder's configuration
+//@   atcall[C12.main,C10.main] Go@2: bc.Logs == logs && bc.WitnessVerifier == operatorConfig.WitnessVerifier && bc.Addr == operatorConfig.BastionAddr && bw.w == witness
+//@   invariant#1 0 <= $i && $i <= len(logCfg.Logs) && len(logs) == $i
+//@   invariant#1 forall j int :: 0 <= j && j < $i ==> logs[j].ID == ID(logCfg.Logs[j].Origin) && logs[j].Origin == logCfg.Logs[j].Origin
+//@   decreases#1 len(logCfg.Logs) - $i
